@@ -261,6 +261,8 @@ macro_rules! define_lagrange { ($name:ident, $n0:ident, $n1:ident, $n2:ident, $n
 
         // First algorithm loop, to shrink values enough to fit in type $n2.
         loop {
+            #[cfg(crrl_verif)]
+            crate::verif::tick();
             // If u is smaller than v, then swap u and v.
             if nu.lt(&nv) {
                 u0.swap(&mut v0);
@@ -321,6 +323,8 @@ macro_rules! define_lagrange { ($name:ident, $n0:ident, $n1:ident, $n2:ident, $n
 
         // Second algorithm loop, once values have shrunk enough to fit in $n2.
         loop {
+            #[cfg(crrl_verif)]
+            crate::verif::tick();
             // If u is smaller than v, then swap u and v.
             if nu.lt(&nv) {
                 u0.swap(&mut v0);
